@@ -407,12 +407,12 @@ package syncer
 //@   properties C18
 //@   ghost var pinned mathint = 0 - 1
 //@   modifies heap, pinned
-//@   set pinned = slot after store slotKnown
+//@   set pinned = ite(pinned == 0 - 1, slot, pinned) after store slotKnown
 //@   assert after store keysSeen: every_key_in_the_unit_slot: slotMode.forceSlot == nil && !slotMode.allowCrossSlot ==> keySlot == pinned
 //@   ensures unit_slot_is_the_pinned_slot: result1 == nil ==> result0 != nil && result0.Slot == pinned && pinned >= 0
 //@   ensures refused_units_send_nothing: result1 != nil ==> result0 == nil
 //@   loop 1:
-//@     invariant pinned_once: (slotKnown ==> slot == pinned && pinned >= 0) && keysSeen >= 0
+//@     invariant pinned_once: (slotKnown ==> slot == pinned && pinned >= 0) && (!slotKnown ==> pinned == 0 - 1) && keysSeen >= 0
 //@   loop 2:
-//@     invariant pinned_once: (slotKnown ==> slot == pinned && pinned >= 0) && keysSeen >= 0
+//@     invariant pinned_once: (slotKnown ==> slot == pinned && pinned >= 0) && (!slotKnown ==> pinned == 0 - 1) && keysSeen >= 0
 //@     invariant known_after_first_key: rangeindex#2 >= 0 ==> slotKnown
